@@ -329,7 +329,13 @@ def step (s : State) (w : List String) : State × String :=
     match s.xp with
     | none => (s, "bad-op")
     | some xp =>
-      let anyAlt := s!"ok sound=ok ; * || err sound=ok ; {fmtForest s.xtarget}"
+      -- a successful read REPLACES the children of the target by the tree the reported elements describe
+      let okTree := if xp.opened then
+          let cfg0 : Cfg := { fmt := xp.fmt, sect := xp.sect, opt := xp.opt, eof := -2 }
+          fmtForest (Events.toForest
+            (Mpt.Parse.loop xp.kind cfg0 (record none) [] Flag.section_ { curr := xp.curr } { rest := xp.rest }).ctx.reverse)
+        else "*"
+      let anyAlt := s!"ok sound=ok ; {okTree} || err sound=ok ; {fmtForest s.xtarget}"
       if !xp.opened then
         ({ s with stat := "code=-1" },
           s!"R err sound=ok | C {fmtForest s.xtarget} | I code=-1 curr={xp.curr} | S {anyAlt}")
